@@ -49,6 +49,10 @@ def gen_wave_case(rng, **kw):
         k.a_ctrl = np.zeros((n, 3), dtype=np.int32)
         for i in range(n):
             k.a_ctrl[i] = [rng.choice([-1] + list(range(nacc))), rng.randint(0, 3), rng.randint(0, 3)]
+        if n > 0 and rng.random() < 0.3:
+            # one line with weights beyond the exact range of float32 (the accumulators are integers): sums are still far below 2^31
+            i = rng.randrange(n)
+            k.a_ctrl[i] = [rng.randrange(nacc), rng.choice([1 << 24, (1 << 24) + 1, 1 << 20]), rng.choice([(1 << 24) + 1, 1, 0])]
     return k
 
 
@@ -75,7 +79,7 @@ def from_description(d):
 def run_case(k, cuda=False, **over):
     return wc.run_wavesim(k.c, over.get('delays', k.delays), over.get('sims', k.sims), over.get('caps', k.caps),
                           over.get('reuse', k.reuse), over.get('strip', k.strip), k.s0, k.s1, k.s2, k.extra, k.tcap,
-                          a_ctrl=k.a_ctrl, cuda=cuda, warm=over.get('warm'))
+                          a_ctrl=k.a_ctrl, cuda=cuda, warm=over.get('warm'), repickle=over.get('repickle'))
 
 
 def warm_round(rng, k):
@@ -116,6 +120,17 @@ def mixed_dataset_run(rng, k, nds=3, cuda=False):
     ctl = np.array([pick, mode], dtype=np.int32)
     w = wc.run_wavesim(k.c, dsets, k.sims, k.caps, k.reuse, k.strip, k.s0, k.s1, k.s2, k.extra, k.tcap, cuda=cuda, simctl=ctl, seed=g)
     return w, dsets, [g if mode[l] == 0 else pick[l] for l in range(k.sims)], {'datasets': dsets.tolist(), 'seed': g, 'simctl': ctl.tolist()}
+
+
+def copied_replay(d, oracle):
+    """replay of a 'copied simulator' failure"""
+    k = from_description(d)
+    cuda, how = d['copied_simulator']
+    try:
+        w, w2 = run_case(k), run_case(k, cuda=cuda, repickle=how)
+        return oracle(k, w2) is not None or not np.array_equal(np.asarray(w2.s)[3:11], np.asarray(w.s)[3:11], equal_nan=True)
+    except Exception:
+        return True
 
 
 def warm_replay(d):
@@ -172,6 +187,21 @@ def campaign(ck, n, oracle, gen_kw=None, coq_lanes=1, label='WaveSim', coq_every
                 d = describe(k)
                 d['warm_round'] = {'s0': wr[0].tolist(), 's1': wr[1].tolist(), 's2': wr[2].tolist(), 'extra': [[p, l, wf] for (p, l), wf in wr[3].items()]}
                 fails.append((d, 'simulator reuse: ' + what))
+        if i % 5 == 4:
+            # the same round on simulators that went through a pickle round trip / a deep copy after assignment (CPU and GPU-kernel class):
+            # the property's oracle must hold for them and their results must equal the original's
+            for cuda, how in ((True, 'pickle'), (False, 'deepcopy'), (True, 'deepcopy')):
+                try:
+                    w2 = run_case(k, cuda=cuda, repickle=how)
+                    what = oracle(k, w2)
+                    if not what and not np.array_equal(np.asarray(w2.s)[3:11], np.asarray(w.s)[3:11], equal_nan=True):
+                        what = 'capture results differ from those of the original simulator'
+                except Exception:
+                    what = 'raises ' + traceback.format_exc()[-400:]
+                ck.count(k.sims, 'copied / unpickled simulators')
+                if what:
+                    fails.append((dict(describe(k), copied_simulator=[cuda, how]), f'{"WaveSimCuda" if cuda else "WaveSim"} after {how}: ' + what))
+                    break
         if i % coq_every == 0:
             for lane in range(min(coq_lanes, k.sims)):
                 coq_cases.append(wc.coq_case(k.c, k.caps, k.reuse, k.strip, k.delays, w, lane, k.s0, k.s1, k.s2, k.extra, k.tcap, a_ctrl=k.a_ctrl))
